@@ -1097,14 +1097,15 @@ fn max_coordinate(inp: &StrokeInput) -> f32 {
     m
 }
 
-/// witness class of finding C05-miter-clip-unscaled-fallback, computed from the input and the options:
+/// witness class of finding C05-miter-clip-unscaled-fallback (FIXED by /repo commit ede203df: the fall-back is now
+/// the unclipped side point; the class stays active, a failure in it is a VIOLATION), computed from the input and the options:
 /// fixed width, `LineJoin::MiterClip`, and a half width below the resolution of the arithmetic -
 /// (a) below one float step of the largest coordinate (`half_width < f32::EPSILON x max |coordinate|`):
 /// the side points `join +- perp(tangent) x half_width` can round onto the join position, and
 /// `get_clip_intersections` is handed `side_point - join = 0` as a line direction; or
 /// (b) `half_width x sqrt(4 x miter_limit^2 - 1) <= 1e-8`: the determinant of the two lines is below
-/// lyon_geom's f64 `EPSILON`.  In both cases `Line::intersection` answers `None` and the code falls
-/// back to the UNSCALED miter normal (`normal.to_point()`): a point `1 / cos(turn / 2) >= 2 x miter_limit`
+/// lyon_geom's f64 `EPSILON`.  In both cases `Line::intersection` answers `None` and the code fell
+/// back (before the fix) to the UNSCALED miter normal (`normal.to_point()`): a point `1 / cos(turn / 2) >= 2 x miter_limit`
 /// UNITS (not half widths) away from the join
 fn miter_clip_below_resolution(inp: &StrokeInput, o: &StrokeOptions) -> bool {
     let l = o.miter_limit as f64;
